@@ -6,7 +6,8 @@
 #define TINY 1e-200
 
 
-static double _gaussian(const double* xyz, const double* center, const double* sigma)
+/* Squared distance to a center in units of sigma */
+static double _sqdist(const double* xyz, const double* center, const double* sigma)
 {
   double aux, d2 = 0.0;
   int i;
@@ -17,7 +18,7 @@ static double _gaussian(const double* xyz, const double* center, const double* s
     d2 += aux*aux;
   }
 
-  return exp(-.5*d2);
+  return d2;
 }
 
 /* Compute: y += w*x */
@@ -66,7 +67,7 @@ void apply_polyaffine(PyArrayObject* XYZ,
   int axis = 1;
   double *xyz, *center, *affine;
   const double* sigma;
-  double w, W;
+  double w, W, d2, d2min;
   double mat[12], t_xyz[3];
   size_t bytes_mat = 12*sizeof(double);
   size_t bytes_xyz = 3*sizeof(double);
@@ -90,11 +91,26 @@ void apply_polyaffine(PyArrayObject* XYZ,
     memset((void*)mat, 0, bytes_mat);
     W = 0.0;
 
+    /* Smallest squared distance to a center: the Gaussian weights are
+       computed relative to it, so that the largest weight is 1 and the
+       weights can be normalized however far the point is from the
+       centers (exp(-.5*d2) itself underflows beyond about 38 sigma) */
+    d2min = -1.0;
+    while(iter_centers->index < iter_centers->size) {
+      center = PyArray_ITER_DATA(iter_centers);
+      d2 = _sqdist(xyz, center, sigma);
+      if ((d2min < 0.0) || (d2 < d2min))
+	d2min = d2;
+      PyArray_ITER_NEXT(iter_centers);
+    }
+    PyArray_ITER_RESET(iter_centers);
+
     /* Loop over centers */
     while(iter_centers->index < iter_centers->size) {
       center = PyArray_ITER_DATA(iter_centers);
       affine = PyArray_ITER_DATA(iter_affines);
-      w = _gaussian(xyz, center, sigma);
+      d2 = _sqdist(xyz, center, sigma);
+      w = (d2 > d2min) ? exp(-.5*(d2 - d2min)) : 1.0;
       W += w;
       _add_weighted_affine(mat, affine, w);
       PyArray_ITER_NEXT(iter_centers);
